@@ -171,6 +171,7 @@ type AnswerSpec struct {
 	Retries  int            `json:"retries,omitempty"` // for retry
 	Calls    int            `json:"calls,omitempty"`   // number of Do calls (default 1)
 	Conc     bool           `json:"conc,omitempty"`    // Do calls from concurrent goroutines
+	MixErr   bool           `json:"mixErr,omitempty"`  // (success answer, several calls) the even-numbered calls carry an error without handler instead
 	Results  map[string]any `json:"results,omitempty"` // extra result fields of the first call (call i>1 gets a "#i" suffix on strings)
 	Objects  map[string]any `json:"objects,omitempty"` // data outputs
 	LateHandler bool        `json:"lateHandler,omitempty"` // the error handler decision is sent only after the engine quiesced
@@ -670,7 +671,11 @@ func (c *ProcCase) Main() {
 			}
 			doOne := func(ci int) {
 				var opts []bpmn.DoOption
-				switch spec.Mode {
+				mode := spec.Mode
+				if mode == "" && spec.MixErr && calls > 1 && ci%2 == 0 {
+					mode = "err"
+				}
+				switch mode {
 				case "":
 					rr := map[string]any{}
 					for k, v := range res {
@@ -724,7 +729,12 @@ func (c *ProcCase) Main() {
 				if len(spec.Objects) > 0 {
 					logged["__objects"] = spec.Objects
 				}
-				L.AddV("ans", r.act, logged)
+				if spec.MixErr && calls > 1 {
+					env.fault("answers-of-different-kinds")
+					L.AddV("ans-mix", r.act, logged) // which kind took effect is read off the trace stream
+				} else {
+					L.AddV("ans", r.act, logged)
+				}
 			} else {
 				L.Add("ans-"+spec.Mode, r.act, "", spec.Retries)
 			}
